@@ -147,6 +147,22 @@ Theorem C01_items_roundtrip : forall items, (forall i, In i items -> idepth i < 
 Proof. exact items_roundtrip. Qed.
 Print Assumptions C01_items_roundtrip.
 
+(* The same statement read for one class: whatever its members (constructors, methods, static methods, properties, nested
+   enumerations, in any number and order) and its base, the printed class parses back to the class record with the members
+   grouped by kind, in order within each kind. *)
+Theorem C01_class_roundtrip : forall virt name ms, wf_class name ms ->
+  parse_module spec_grammar (print_items [IClass virt name ms]) = Ok [class_decl virt name ms].
+Proof.
+  intros virt name ms H. apply (items_roundtrip [IClass virt name ms]). intros i [E|[]]. subst i. split; [cbn; unfold depth_fuel; lia | exact H].
+Qed.
+Print Assumptions C01_class_roundtrip.
+Theorem C01_derived_class_roundtrip : forall virt name ns base ms, wf_class_b name ns base ms ->
+  parse_module spec_grammar (print_items [IClassB virt name ns base ms]) = Ok [class_decl_b virt name ns base ms].
+Proof.
+  intros virt name ns base ms H. apply (items_roundtrip [IClassB virt name ns base ms]). intros i [E|[]]. subst i. split; [cbn; unfold depth_fuel; lia | exact H].
+Qed.
+Print Assumptions C01_derived_class_roundtrip.
+
 Definition sample_tree : list item :=
   [ IFn (TPlain (tn [] "void") false PNone true, "f", [(TPlain (tn ["gtsam"] "Pose3") true PRef false, "p")]);
     IInc "gtsam/geometry/Pose3.h"; IFwd false "Later"; IEnum "classy" ["Red"; "Green"; "NONE"];
